@@ -272,6 +272,9 @@ class FakeSnowflakeCursor:
         if set_database := transformed.args.get("set_database"):
             self._conn.database = set_database
             self._conn.database_set = True
+            # the schema of the previous database is no longer the current schema
+            self._conn.schema = None
+            self._conn.schema_set = False
 
         elif set_schema := transformed.args.get("set_schema"):
             self._conn.schema = set_schema
